@@ -40,6 +40,7 @@ from vivarium.library.topology import (
     assoc_path,
     inverse_topology,
     normalize_path,
+    dict_to_paths,
 )
 from vivarium.library.dict_utils import apply_func_to_leaves
 from vivarium.core.types import (
@@ -576,9 +577,16 @@ class Engine:
             self.state.apply_defaults()
             # build the processes' views
             self.state.build_topology_views()
-            # get processes and topology from the store
-            self.processes = self.state.get_processes()
-            self.steps = self.state.get_steps() or {}
+            # get processes and topology from the store; processes
+            # marked as parallel run in parallel here as well, and the
+            # store holds their wrappers
+            self.processes = self._parallelize_processes(
+                self.state.get_processes() or {})
+            self.steps = self._parallelize_processes(
+                self.state.get_steps() or {})
+            for parallelized in (self.processes, self.steps):
+                for path, process in dict_to_paths((), parallelized):
+                    self.state.get_path(path).value = process
             self.flow = self.state.get_flow() or {}
             self.topology = self.state.get_topology()
 
